@@ -20,7 +20,7 @@ RULE = ("(A) the same generated spec (hierarchy 0-2, shared operators, per-node 
         "edited spec; (D) parser.replace is compared with the tokenizer oracle on random equations over identifier sets that "
         "contain one another; non-trivial = model has an edge or an override (A, B) / edit hits an identifier that is part of a "
         "longer one (C, D); distinct = distinct (spec, mode) hash")
-DECIDING = ['yaml_text_models', 'roundtrip_models', 'derived_templates', 'replace_calls', 'replace_nontrivial', 'derivatives_compared', 'two_variant_roundtrips', 'edit_dictionary_reused', 'three_or_more_variant_roundtrips']
+DECIDING = ['yaml_text_models', 'roundtrip_models', 'derived_templates', 'replace_calls', 'replace_nontrivial', 'derivatives_compared', 'two_variant_roundtrips', 'edit_dictionary_reused', 'three_or_more_variant_roundtrips', 'yaml_shared_update_models']
 ASSUMPTIONS = ['equation edits address whole identifiers on right-hand sides (the left-hand side form x\' is a separate finding)']
 CASE_TIMEOUT = 180
 FOCUS = ['roundtrip_with_overrides', 'roundtrip_after_update_var', 'replace_lhs_prime', 'roundtrip_same_named_templates']
@@ -44,6 +44,7 @@ def plan(tier, seed):
     # the part of "per-node overrides + shared operators" that works on the pinned tree: exactly two nodes that use the same
     # operators with different per-node values, no edges; the reloaded circuit is compared by value (operator names may change)
     cases += [{'family': 'two_variants', 'cseed': rnd.randrange(1 << 30), 'mode': 'two_variants'} for _ in range(30 if tier == 'quick' else 600)]
+    cases += [{'family': 'yaml_shared_update', 'cseed': rnd.randrange(1 << 30), 'mode': 'yaml_shared_update'} for _ in range(20 if tier == 'quick' else 300)]
     return cases
 
 
@@ -83,6 +84,8 @@ def run_case(case, ctx):
             return case_derived(case, ctx, rnd, mech, res)
         if mode == 'two_variants':
             return case_two_variants(case, ctx, rnd, mech, res)
+        if mode == 'yaml_shared_update':
+            return case_yaml_shared_update(case, ctx, rnd, mech, res)
         return case_models(case, ctx, rnd, mech, res)
     except observe.Mismatch as e:
         s = str(e)
@@ -146,6 +149,60 @@ def check_dynamics(tmpl, spec, ctx, rnd, mech, label):
         observe.compare_vf(obs, ref, rnd, ctx['mp'], n_points=3, vectorized=False, mech=mech)
     except observe.Mismatch as e:
         raise observe.Mismatch(f"{label}: {e}")
+
+
+def case_yaml_shared_update(case, ctx, rnd, mech, res):
+    """(A') a YAML hierarchy of depth 2 in which one mid-level circuit template is referenced under two keys (the loader hands
+    out one object for both); update_var on the loaded circuit addresses a variable below ONE key; the dynamics must be those of
+    the definition with that single override."""
+    from pyrates import CircuitTemplate, clear_frontend_caches
+    if case.get('spec') is not None:
+        spec = case['spec']
+    else:
+        for attempt in range(300):
+            spec, feats, risk = gen.gen_net(rnd, pool=gen.SAFE_POOL, n_nodes=rnd.choice([3, 4, 5]), max_types=2, depth=2,
+                                            same_type_bias=True, forbid=ctx['excluded'], edge_density=rnd.choice([0.0, 0.2]))
+            subs = spec['circ']['subs']
+            if not subs:
+                continue
+            first = list(subs)[0]
+            if not subs[first].get('subs'):
+                continue
+            subs[first]['__share'] = 'shared0'
+            subs[first + '_twin'] = subs[first]
+            ref0 = RefModel(spec)
+            cands = [k for k in ref0.kind if k[0].startswith(first + '/') and ref0.kind[k] == 'const']
+            if not cands:
+                continue
+            n, op, v = rnd.choice(cands)
+            spec['updates'] = [[f'{n}/{op}/{v}', round(rnd.uniform(1.5, 2.5), 4)]]
+            break
+        else:
+            raise RuntimeError('generator could not satisfy the constraints')
+    res['sig'] = stable_hash([spec, 'yaml_shared_update'])
+    res['features'] += ['yaml_shared_update']
+    res['nontrivial'] = True
+    cwd = os.getcwd()
+    base = {k: v for k, v in spec.items() if k != 'updates'}
+    text, top = build.build_yaml_text(base)
+    with open('model_su.yaml', 'w') as f:
+        f.write(text)
+    try:
+        clear_frontend_caches()
+        t_yaml = CircuitTemplate.from_yaml(f'{cwd}/model_su/{top}')
+        for path, val in spec['updates']:
+            t_yaml.update_var(node_vars={path: val})
+    except Exception as e:
+        res['spec'] = spec
+        raise observe.Mismatch(f"loud: from_yaml / update_var of a hierarchy with a twice-referenced circuit raised {type(e).__name__}: {e}")
+    try:
+        check_dynamics(t_yaml, spec, ctx, rnd, mech, f"YAML hierarchy with a twice-referenced circuit after update_var({spec['updates'][0][0]})")
+    except observe.Mismatch:
+        res['spec'] = spec
+        raise
+    mech['yaml_shared_update_models'] = 1
+    res.update(status='ok', symptom='', mech=mech, sample={'mode': 'yaml_shared_update', 'update': spec['updates']})
+    return res
 
 
 def same_named_subcircuits(spec):
